@@ -47,10 +47,25 @@ impl C11 {
         let (op, or) = (OUTS[((cell / 9) % 4) as usize], OUTS[((cell / 36) % 4) as usize]);
         let rel = RELS[((cell / 144) % 5) as usize];
         let check = (cell / 720) % 2 == 0;
+        // the ids the caller asked for are remembered here, not read back from the engine value
+        let mut wanted: Option<(u32, Option<u32>)> = None;
+        let mut mk = |main: u32, ded: Option<u32>| -> Engine {
+            wanted = Some((main, ded));
+            match ded {
+                Some(d) => Engine::new_with_dedicated(main, d),
+                None => Engine::new(main),
+            }
+        };
         let (engine, reported): (Engine, u32) = match rel {
-            AppRel::Main => (Engine::new_with_dedicated(736_590, 950_900), 736_590),
-            AppRel::Dedicated => (Engine::new_with_dedicated(736_590, 950_900), 950_900),
-            AppRel::Other => (if cx.rng.bool() { Engine::new_with_dedicated(736_590, 950_900) } else { Engine::new(440) }, *cx.rng.pick(&[441u32, 0, 736_591, 70_000, 950_901])),
+            AppRel::Main => (mk(736_590, Some(950_900)), 736_590),
+            AppRel::Dedicated => (mk(736_590, Some(950_900)), 950_900),
+            // a caller may build an engine value for any id (0 and 2^24-1 included); the server reports another one
+            AppRel::Other => match cx.rng.below(4) {
+                0 => (mk(736_590, Some(950_900)), *cx.rng.pick(&[441u32, 0, 736_591, 70_000, 950_901])),
+                1 => (mk(0, None), *cx.rng.pick(&[440u32, 1, 70_000])),
+                2 => (mk(0, Some(5)), *cx.rng.pick(&[440u32, 1, 6])),
+                _ => (mk(440, None), *cx.rng.pick(&[441u32, 0, 736_591, 70_000, 950_901])),
+            },
             AppRel::NoExpectationSource => (Engine::Source(None), cx.rng.b_u32() & 0xff_ffff),
             AppRel::NoExpectationGold => (Engine::GoldSrc(false), cx.rng.b_u32() & 0xffff),
         };
@@ -107,9 +122,9 @@ impl C11 {
         cx.shape(&label);
         let detail = |what: &str, got: String| json!({"what": what, "cell": label, "engine": format!("{engine:?}"), "reported_appid": reported, "got": got, "requests": sends.iter().map(|d| hex(d)).collect::<Vec<_>>()});
         // reference semantics
-        let id_ok = match engine {
-            Engine::Source(Some((m, d))) => reported == m || d == Some(reported),
-            _ => true,
+        let id_ok = match wanted {
+            Some((m, d)) => reported == m || d == Some(reported),
+            None => true,
         };
         let expect: Result<(bool, bool), &str> = if !id_ok && check {
             Err("BadGame")
@@ -188,7 +203,70 @@ impl C11 {
         }
     }
 
+    /// The request-settings builder: after any sequence of setter calls every field holds what was set last for it and
+    /// the others are untouched; the protocol settings derived from it carry those toggles (defaults where unset).
+    fn builder_algebra(&self, cx: &mut Cx) {
+        use gamedig::ExtraRequestSettings as X;
+        let tg = toggles();
+        let mut x = X::default();
+        let (mut host, mut pv, mut gp, mut gr, mut chk): (Option<String>, Option<i32>, Option<GatherToggle>, Option<GatherToggle>, Option<bool>) = (None, None, None, None, None);
+        let n = cx.rng.usize(1, 7);
+        let mut calls = Vec::new();
+        for _ in 0 .. n {
+            match cx.rng.below(5) {
+                0 => {
+                    let h = cx.rng.ident(8);
+                    x = x.set_hostname(h.clone());
+                    host = Some(h);
+                    calls.push("set_hostname");
+                }
+                1 => {
+                    let v = cx.rng.b_i32();
+                    x = x.set_protocol_version(v);
+                    pv = Some(v);
+                    calls.push("set_protocol_version");
+                }
+                2 => {
+                    let t = tg[cx.rng.below(3) as usize];
+                    x = x.set_gather_players(t);
+                    gp = Some(t);
+                    calls.push("set_gather_players");
+                }
+                3 => {
+                    let t = tg[cx.rng.below(3) as usize];
+                    x = x.set_gather_rules(t);
+                    gr = Some(t);
+                    calls.push("set_gather_rules");
+                }
+                _ => {
+                    let b = cx.rng.bool();
+                    x = x.set_check_app_id(b);
+                    chk = Some(b);
+                    calls.push("set_check_app_id");
+                }
+            }
+        }
+        cx.eval();
+        let detail = || json!({"calls": calls, "value": format!("{x:?}")});
+        if x.hostname != host || x.protocol_version != pv || x.gather_players != gp || x.gather_rules != gr || x.check_app_id != chk {
+            cx.violation("C11 request-settings builder loses or invents a setting", detail);
+            return;
+        }
+        let v: GatheringSettings = x.clone().into();
+        let dv = GatheringSettings::default();
+        let u: unreal2::GatheringSettings = x.clone().into();
+        let du = unreal2::GatheringSettings::default();
+        if v.players != gp.unwrap_or(dv.players) || v.rules != gr.unwrap_or(dv.rules) || v.check_app_id != chk.unwrap_or(dv.check_app_id) {
+            cx.violation("C11 valve settings derived from the builder differ", detail);
+        } else if u.players != gp.unwrap_or(du.players) || u.mutators_and_rules != gr.unwrap_or(du.mutators_and_rules) {
+            cx.violation("C11 unreal2 settings derived from the builder differ", detail);
+        } else {
+            cx.count("builder-sequences-ok");
+        }
+    }
+
     fn u2_cell(&self, cx: &mut Cx, cell: u64) {
+        self.builder_algebra(cx);
         let tg = toggles();
         let (tp, tr) = (tg[(cell % 3) as usize], tg[((cell / 3) % 3) as usize]);
         let outs = [Out::Valid, Out::Silent, Out::Malformed];
